@@ -24,7 +24,7 @@
 (* same tuple (conformance), and checks the library digests pairwise          *)
 (* distinct (the verdict).                                                    *)
 (*                                                                            *)
-(* Deliberately broken / reduced framings (Variant # "code") exist to show    *)
+(* Deliberately broken / reduced framings (VFrame, Variants) exist to show     *)
 (* that the domain is discriminating: TLC must find collisions for those that *)
 (* are ambiguous ("nolen": no length suffix, "bare": plain concatenation      *)
 (* behind the count, "skipempty": empty inputs contribute nothing, "nocount+  *)
@@ -43,10 +43,11 @@ CONSTANTS
   MaxLen,     \* every input has 0..MaxLen bytes
   Kind,       \* "bytes": inputs are byte strings (SHA512_256); "ints": inputs are integers (SHA512_256i, _TAGGED)
   WithNil,    \* "ints" only: the nil pointer is an input too (read as 0 by the TAGGED variant)
-  Variant,    \* "code" or one of the broken framings above
+  VariantSet, \* the framings under which the tuples are counted (VIEW runs): {"code"} or a set of the framings above
   Emit        \* print one ROW per tuple (table tuple -> frame for the harness)
 
-VARIABLE t    \* the tuple built so far
+VARIABLES t,  \* the tuple built so far
+          vw  \* the framing it is viewed under (VIEW runs only; constant along a behaviour)
 
 Delim == 36   \* hashInputDelimiter = '$'
 Nil   == -1   \* stands for a nil *big.Int
@@ -116,7 +117,7 @@ VFrame(v, bs) ==
 Variants  == {"code", "nocount", "nolen", "nocount+nolen", "nodelim", "bare", "skipempty"}
 Ambiguous == {"nolen", "nocount+nolen", "bare", "skipempty"}   \* expected to collide on the domain; the others not
 
-ASSUME Variant \in Variants
+ASSUME VariantSet \subseteq Variants /\ VariantSet # {}
 ASSUME Kind \in {"bytes", "ints"} /\ WithNil \in BOOLEAN /\ Emit \in BOOLEAN
 ASSUME \A a \in Alphabet : a \in 0..255
 ASSUME \A v \in {0, 1, 3, 8, 36, 255, 256, 65535, 65536, 16777215, 16777216, 2147483647} :
@@ -127,19 +128,20 @@ ASSUME VFrame("nolen", << <<1, Delim>>, <<8>> >>) = VFrame("nolen", << <<1>>, <<
 ASSUME Frame(<< <<1, Delim>>, <<8>> >>) # Frame(<< <<1>>, <<Delim, 8>> >>)
 
 (* ---- state machine ------------------------------------------------------ *)
-Init == t = << >>
-Next == Len(t) < MaxCount /\ \E x \in Inputs : t' = Append(t, x)
-Spec == Init /\ [][Next]_t
+Init == t = << >> /\ vw \in VariantSet
+Next == Len(t) < MaxCount /\ \E x \in Inputs : t' = Append(t, x) /\ UNCHANGED vw
+Spec == Init /\ [][Next]_<<t, vw>>
 
-FrameView == VFrame(Variant, BytesAll(t))     \* VIEW: distinct states = distinct frames (+1 for the empty root)
+(* VIEW: distinct states = distinct (framing, frame) pairs, i.e. per framing the number of distinct frames (+1 for  *)
+(* the empty root).  For a set of injective framings that is Cardinality(VariantSet) * (number of tuples + 1).      *)
+FrameView == << vw, VFrame(vw, BytesAll(t)) >>
 
 TypeOK == t \in Seq(Inputs) /\ Len(t) <= MaxCount
 
 (* the framing is injective: a left inverse exists (nil decodes as the 0 it was read as) *)
 DecodeBack(bs) == IF Kind = "bytes" THEN bs ELSE [i \in 1..Len(bs) |-> BE(bs[i])]
-LeftInverse ==
-  Len(t) > 0 =>
-    LET u == Unframe(Frame(BytesAll(t))) IN u # Bad /\ DecodeBack(u) = Canon(t)
+LeftInverseOf(f) == LET u == Unframe(f) IN u # Bad /\ DecodeBack(u) = Canon(t)
+LeftInverse == Len(t) > 0 => LeftInverseOf(Frame(BytesAll(t)))
 
 (* integers enter through their minimal encoding, which is itself injective on the non-negative integers *)
 IntBytesInjective ==
@@ -148,15 +150,18 @@ IntBytesInjective ==
      /\ (t[i] # 0 => IntBytes(t[i])[1] # 0)
 
 (* the tagged pre-image determines (tag, tuple).  The tag part does not depend on the tuple: it is checked once  *)
-(* for every tag that is a string of the domain (ASSUME below), and per tuple for the tags of at most one byte.   *)
+(* for every tag that is a string of the domain (ASSUME below), and per tuple with one tag.                       *)
 UnTag(p) == IF p[1] # p[2] \/ p[1][1] # "H" THEN << Bad, Bad >>
             ELSE << Unframe(p[1][2]), Unframe(p[3]) >>
-SmallTags == UNION { [1..n -> Alphabet] : n \in 0..1 }
+TagOf(tt) == BytesOf(tt[1])       \* the tag tried with a tuple: the bytes of its first input (so every string occurs as a tag)
+TaggedInjectiveOf(f) ==
+  LET tag == TagOf(t)
+      u == UnTag(<< H(Frame(<< tag >>)), H(Frame(<< tag >>)), f >>) IN
+    u[1] = << tag >> /\ u[2] # Bad /\ DecodeBack(u[2]) = Canon(t)
 TaggedInjective ==
   (Kind = "ints" /\ Len(t) > 0) =>
-    \A tag \in SmallTags :
-      LET u == UnTag(TaggedPre(tag, BytesAll(t))) IN
-        u[1] = << tag >> /\ u[2] # Bad /\ DecodeBack(u[2]) = Canon(t)
+    /\ TaggedPre(TagOf(t), BytesAll(t))[3] = Frame(BytesAll(t))
+    /\ TaggedInjectiveOf(Frame(BytesAll(t)))
 ASSUME \A tag \in Strings : Unframe(Frame(<< tag >>)) = << tag >>
 
 (* ---- the hash commitment (commitment.go:33-72) with the ideal hash H ---- *)
@@ -198,6 +203,13 @@ CommitBinds ==
 (* one row per tuple: the tuple and its frame                                *)
 EmitRow ==
   (Emit /\ Len(t) > 0) => PrintT(<< "ROW", ToJson([t |-> t, f |-> Frame(BytesAll(t))]) >>)
+(* the same three statements with the frame computed once per tuple (what the harness runs on the full domain)   *)
+FrameRow ==
+  Len(t) > 0 =>
+    LET f == Frame(BytesAll(t)) IN
+      /\ LeftInverseOf(f)
+      /\ Kind = "ints" => TaggedInjectiveOf(f)
+      /\ Emit => PrintT(<< "ROW", ToJson([t |-> t, f |-> f]) >>)
 
 (* collision witness for an ambiguous variant on the sub-domain of at most two inputs of at most two bytes         *)
 SmallStrings == UNION { [1..n -> Alphabet] : n \in 0..2 }
